@@ -226,7 +226,7 @@ def run(ctx, build):
     # done in floating point must not slip at a block boundary); integer oracle for all, the model for a few
     top = 260 if ctx.quick() else 1200
     in_model = {49, 98, 103, 107, 161, 187, 196}
-    big = [[q, 2] for q in range(5, top + 1)] + [[7, 7, 3], [7, 14, 2], [14, 14, 2], [3, 49, 2], [2, 103, 3]]
+    big = [[q, 2] for q in range(5, top + 1)] + [[7, 7, 3], [7, 14, 2], [14, 14, 2], [3, 49, 2], [2, 103, 3], [70001, 2]]   # the last: more steps than 16 bits hold
     hist['long_dimension_cases'] = 0
     for sizes in big:
         exp = fastest_first(sizes)
